@@ -21,11 +21,22 @@ def run_ibc(prop, tier, seed, profiles=("flow", "recv"), only_devs=None, verdict
             transitions += r.generated
             if logged:
                 for t in r.tlines:
-                    if t["a"]["op"] == "deliver":
-                        continue     # environment step: nothing runs on the sequencer
                     trans.setdefault((vf.canon(t["s"]), vf.canon(t["a"])), t)
             cfgs.append({"cfg": cfg, "distinct": r.distinct, "generated": r.generated, "wall_s": round(r.wall, 1)})
     cases = list(trans.values())
+    if tier == "quick":
+        # every distinct step (operation, arguments, outcome, deviation) from up to 3 of the pre-states it was explored from
+        import random
+        rnd = random.Random(seed)
+        rnd.shuffle(cases)
+        per = {}
+        kept = []
+        for c in cases:
+            k = vf.canon(c["a"])
+            if per.get(k, 0) < 3:
+                per[k] = per.get(k, 0) + 1
+                kept.append(c)
+        cases = kept
     results = vf.run_harness_sharded("astria-sequencer", ENTRY, cases, tag=f"{prop}-ibc-{tier}", shards=14,
                                      timeout=3000) if cases else []
     if len(results) != len(cases):
@@ -60,7 +71,7 @@ def run_ibc(prop, tier, seed, profiles=("flow", "recv"), only_devs=None, verdict
                 "not fail outright",
         "by_step_and_outcome": by_op,
         "implementation_matched": matched,
-        "exhaustive": True,
+        "exhaustive": tier != "quick",
         "tlc_configs": cfgs,
     }
     assumptions = [
